@@ -613,6 +613,9 @@ public:
         } else if (const auto* NE = dyn_cast<CXXNewExpr>(St)) {
             O["k"] = "new";
             O["alloc"] = T(NE->getAllocatedType());
+            if (!NE->getAllocatedType()->isDependentType() && !NE->getAllocatedType()->isIncompleteType()) {
+                O["asz"] = static_cast<int64_t>(Ctx.getTypeSizeInChars(NE->getAllocatedType()).getQuantity());
+            }
             if (NE->isArray()) {
                 O["array"] = 1;
                 if (NE->getArraySize()) {
